@@ -793,11 +793,59 @@ Body.whole_def_expr = _whole_def_expr
 
 
 # ---------------------------------------------------------------- phi-expanded expressions (A10 normal forms)
-def _pexpr_local(self, l, depth=0, seen=frozenset()):
-    """like expr_local, but a local with several whole definitions becomes ('phi', (alternatives...)) instead of a name"""
+def _pos(i):
+    return 10 ** 9 if i == 't' else i
+
+
+def _reaching(self, l, at):
+    """whole definitions of local l that reach the use site at=(block, index|'t') without being overwritten on the way"""
+    cache = self.__dict__.setdefault('_reach_cache', {})
+    key = (l, at)
+    if key in cache:
+        return cache[key]
+    ub, ui = at
+    up = _pos(ui)
+    alld = [(b, i) for (b, i, whole) in self.defs.get(l, []) if whole]
+    byblock = {}
+    for b, i in alld:
+        byblock.setdefault(b, []).append(_pos(i))
+    out = []
+    for (b, i) in alld:
+        p = _pos(i)
+        reaches = False
+        # same block, before the use, nothing in between
+        if b == ub and p < up and not any(p < q < up for q in byblock[b]):
+            reaches = True
+        # leaves its block alive?
+        elif not any(q > p for q in byblock[b]):
+            seenb = set()
+            work = list(self.succ(b))
+            while work and not reaches:
+                x = work.pop()
+                if x in seenb or x not in self.reach:
+                    continue
+                seenb.add(x)
+                if x == ub:
+                    if not any(q < up for q in byblock.get(x, [])):
+                        reaches = True
+                        break
+                    continue   # overwritten before the use in the use block (a later def of this block is handled by its own turn)
+                if x in byblock:
+                    continue   # killed
+                work.extend(self.succ(x))
+        if reaches:
+            out.append((b, i))
+    cache[key] = out
+    return out
+
+
+def _pexpr_local(self, l, depth=0, seen=frozenset(), at=None):
+    """like expr_local, but a local with several whole definitions becomes ('phi', (alternatives...)) instead of a name;
+    with `at` = use site, only the definitions that reach that site are alternatives (flow-sensitive)"""
     cache = self.__dict__.setdefault('_pexpr_cache', {})
-    if not seen and l in cache:
-        return cache[l]
+    ckey = (l, at) if at is not None else l
+    if not seen and ckey in cache:
+        return cache[ckey]
     if l in seen or depth > 30:
         return ('local', l, self.local_name(l), _ty_short(self.locals[l]))
     if self.kind == 'Closure' and l == 1:
@@ -807,20 +855,26 @@ def _pexpr_local(self, l, depth=0, seen=frozenset()):
     ds = self.defs.get(l, [])
     whole = [x for x in ds if x[2]]
     partial = [x for x in ds if not x[2]]
+    if at is not None and len(whole) > 1:
+        r = _reaching(self, l, at)
+        if r:
+            rs = set(r)
+            whole = [x for x in whole if (x[0], x[1]) in rs]
     seen2 = seen | {l}
     if not whole or len(whole) > 4 or (partial and self.local_name(l) is not None):
         e = ('local', l, self.local_name(l), _ty_short(self.locals[l]))
     else:
         alts = []
         for (b, i, _) in whole:
+            sub = (b, i) if at is not None else None
             if i == 't':
                 t = self.term(b)
                 if t['t'] == 'call':
-                    alts.append(self._pexpr_call(b, t, depth + 1, seen2))
+                    alts.append(self._pexpr_call(b, t, depth + 1, seen2, sub))
                 else:
                     alts.append(('resume', b))
             else:
-                alts.append(self._pexpr_rvalue(self.stmts(b)[i]['rv'], depth + 1, seen2))
+                alts.append(self._pexpr_rvalue(self.stmts(b)[i]['rv'], depth + 1, seen2, sub))
         if len(alts) == 1 and not partial:
             e = alts[0]
         elif len(alts) == 1:
@@ -832,22 +886,22 @@ def _pexpr_local(self, l, depth=0, seen=frozenset()):
                     uniq.append(a)
             e = uniq[0] if len(uniq) == 1 else ('phi', tuple(sorted(uniq, key=lambda x: render(x))))
     if not seen:
-        cache[l] = e
+        cache[ckey] = e
     return e
 
 
-def _pexpr_operand(self, op, depth=0, seen=frozenset()):
+def _pexpr_operand(self, op, depth=0, seen=frozenset(), at=None):
     if 'k' in op:
         if 'item' in op:
             return ('constitem', op['item'], op.get('ty', ''))
         return ('const', op['k'], op.get('ty', ''))
     if 'fn' in op:
         return ('fnitem', op['fn'])
-    return self._pexpr_place(op_place(op), depth, seen)
+    return self._pexpr_place(op_place(op), depth, seen, at)
 
 
-def _pexpr_place(self, place, depth=0, seen=frozenset()):
-    base = self._pexpr_local(place[0], depth, seen)
+def _pexpr_place(self, place, depth=0, seen=frozenset(), at=None):
+    base = self._pexpr_local(place[0], depth, seen, at)
     for pr in place[1:]:
         if base[0] == 'phi':
             base = ('phi', tuple(self._project(a, pr) for a in base[1]))
@@ -858,10 +912,9 @@ def _pexpr_place(self, place, depth=0, seen=frozenset()):
     return base
 
 
-def _pexpr_call(self, b, t, depth, seen):
-    save = (self.expr_operand,)
+def _pexpr_call(self, b, t, depth, seen, at=None):
     name = t.get('res') or t.get('fn') or '<indirect>'
-    args = tuple(self._pexpr_operand(a, depth, seen) for a in t.get('args', []))
+    args = tuple(self._pexpr_operand(a, depth, seen, at) for a in t.get('args', []))
     decl = t.get('fn') or ''
     if (decl in TRANSPARENT_CALLS or name in TRANSPARENT_CALLS) and len(args) == 1:
         return args[0]
@@ -874,11 +927,11 @@ def _pexpr_call(self, b, t, depth, seen):
     return ('call', name, args, b)
 
 
-def _pexpr_rvalue(self, rv, depth, seen):
+def _pexpr_rvalue(self, rv, depth, seen, at=None):
     # reuse _expr_rvalue with operand/place hooks swapped
     r = rv['r']
-    O = lambda o: self._pexpr_operand(o, depth, seen)
-    Pl = lambda p: self._pexpr_place(p, depth, seen)
+    O = lambda o: self._pexpr_operand(o, depth, seen, at)
+    Pl = lambda p: self._pexpr_place(p, depth, seen, at)
     if r in ('use', 'repeat', 'cast'):
         return O(rv['a'])
     if r in ('ref', 'rawptr'):
